@@ -114,6 +114,11 @@ View == m
 
 Emit == nw \notin Cuts \/ PrintT("@@S " \o ToJson(Scenario(hist, m)))
 
+\* exhaustive generation (thorough tier): every sequence of BFS_LEN calls from every seed
+BfsLen == EnvN("BFS_LEN", 2)
+BfsBound == nw <= BfsLen
+EmitBfs == nw # BfsLen \/ PrintT("@@S " \o ToJson(Scenario(hist, m)))
+
 (* design-level invariants *)
 InvOwned == LibOwned(m) /\ RvOwned(m)
 \* whatever happened, the documented release calls apply and leave nothing behind
